@@ -161,3 +161,58 @@ def valid_frame(b):
     if t == I or t == RR or t == RNR:
         return len(b) >= 3
     return True
+
+
+CLASS_OF = {SYMM: 'Symmetry', PAX: 'ParameterExchange', AGF: 'AggregatedFrame',
+            UI: 'UnnumberedInformation', CONNECT: 'Connect', DISC: 'Disconnect',
+            CC: 'ConnectionComplete', DM: 'DisconnectedMode', FRMR: 'FrameReject',
+            SNL: 'ServiceNameLookup', DPS: 'DataProtectionSetup', I: 'Information',
+            RR: 'ReceiveReady', RNR: 'ReceiveNotReady'}
+
+
+def pdu_octets(data, offset, size):
+    """the octets of the one PDU that decode(data, offset, size) is asked to read"""
+    if size is None:
+        return data[offset:]
+    return data[offset:offset + size]
+
+
+def agrees(p, b):
+    """Does the decoded PDU object p carry what the octets b (exactly one PDU)
+    say, for the header and for the fixed-format PDU types?"""
+    t = hdr_ptype(b)
+    if p.ptype != t or p.dsap != hdr_dsap(b) or p.ssap != hdr_ssap(b):
+        return False
+    if type(p).__name__ != CLASS_OF.get(t, 'UnknownProtocolDataUnit'):
+        return False
+    if t == UI:
+        return p.data == b[2:]
+    if t == DM:
+        return p.reason == b[2]
+    if t == FRMR:
+        return (p.rej_flags == b[2] // 16 and p.rej_ptype == b[2] % 16 and
+                p.ns == b[3] // 16 and p.nr == b[3] % 16 and
+                p.vs == b[4] // 16 and p.vr == b[4] % 16 and
+                p.vsa == b[5] // 16 and p.vra == b[5] % 16)
+    if t == I:
+        return p.ns == b[2] // 16 and p.nr == b[2] % 16 and p.data == b[3:]
+    if t == RR or t == RNR:
+        return p.nr == b[2] % 16
+    if t == 11 or t == 15:
+        return p.payload == b[2:]
+    return True
+
+
+def old_size(data, offset, size):
+    if size is None:
+        return len(data) - offset
+    return size
+
+
+def own_end(data, offset, size):
+    """end of the index range decode(data, offset, size) may inspect: the PDU's
+    own octets, and nothing at all when they are not all present"""
+    n = old_size(data, offset, size)
+    if n < 0 or offset + n > len(data):
+        return offset
+    return offset + n
